@@ -61,7 +61,7 @@ class Translator:
             return getattr(glob[node.value.id], node.attr)
         raise Untranslatable('not a constant: ' + ast.unparse(node))
 
-    def function(self, name, kind, owner=None, after=None):
+    def function(self, name, kind, owner=None, after=None, gated=False):
         """statements of method `name` as event function on a node ('node') or edge ('edge') element"""
         self.depth += 1
         if self.depth > 6:
@@ -81,10 +81,59 @@ class Translator:
         glob = f.__globals__
         env = {'self': selfname, 't': tname, 'x': xname, 'n': xname if kind == 'node' else None, 'g': set()}
         out = []
-        for s in fd.body:
+        body = list(fd.body)
+        gate = None
+        if gated and body and isinstance(body[-1], ast.If):
+            gate = body.pop()
+        for s in body:
             out += self.stmt(s, env, kind, c, glob)
+        if gate is not None:
+            out = self.gate(gate, out, env, kind, c, glob)
         self.depth -= 1
         return out
+
+    def node_attr(self, node, env, glob):
+        """<graph>.nodes[n][K] -> K's value"""
+        if (isinstance(node, ast.Subscript) and isinstance(node.value, ast.Subscript) and isinstance(node.value.value, ast.Attribute)
+                and node.value.value.attr == 'nodes' and self.is_graph(node.value.value.value, env) and self.is_n(node.value.slice, env)):
+            return self.const(node.slice, env['self'], glob)
+        raise Untranslatable('not a node attribute: ' + ast.unparse(node))
+
+    def gate(self, s, pre, env, kind, cls, glob):
+        """if g.nodes[n][VACCINATED] and g.nodes[n][VACCINATION_TIME] + self.<off> < t:
+               if rng.random() > self.<eff>: TH
+           else: EL"""
+        import epydemic as ep
+        where = '%s line %d: %s' % (cls.__name__, s.lineno, ast.unparse(s.test)[:100])
+        tst = s.test
+        if not (isinstance(tst, ast.BoolOp) and isinstance(tst.op, ast.And) and len(tst.values) == 2):
+            raise Untranslatable(where)
+        a, b = tst.values
+        if self.node_attr(a, env, glob) != ep.SIvR.VACCINATED:
+            raise Untranslatable(where + ': first conjunct is not the vaccination flag')
+        if not (isinstance(b, ast.Compare) and len(b.ops) == 1 and isinstance(b.ops[0], ast.Lt) and self.is_t(b.comparators[0], env)
+                and isinstance(b.left, ast.BinOp) and isinstance(b.left.op, ast.Add) and _is_self_attr(b.left.right, env['self'])
+                and self.node_attr(b.left.left, env, glob) == ep.SIvR.VACCINATION_TIME):
+            raise Untranslatable(where + ': second conjunct is not <vaccination time> + self.<offset> < t')
+        off = getattr(self.obj, b.left.right.attr)
+        if len(s.body) != 1 or not isinstance(s.body[0], ast.If) or s.body[0].orelse:
+            raise Untranslatable(where + ': the effective branch is not a single if without else')
+        inner = s.body[0]
+        it = inner.test
+        if not (isinstance(it, ast.Compare) and len(it.ops) == 1 and isinstance(it.ops[0], ast.Gt) and _is_self_attr(it.comparators[0], env['self'])
+                and isinstance(it.left, ast.Call) and not it.left.args and not it.left.keywords and isinstance(it.left.func, ast.Attribute)
+                and it.left.func.attr == 'random' and isinstance(it.left.func.value, ast.Name) and glob.get(it.left.func.value.id) is ep.rng):
+            raise Untranslatable(where + ': inner test is not rng.random() > self.<efficacy>')
+        eff = getattr(self.obj, it.comparators[0].attr)
+        if not isinstance(off, (int, float)) or not isinstance(eff, (int, float)):
+            raise Untranslatable(where + ': offset / efficacy is not a number')
+        env_t, env_e = dict(env, g=set(env['g'])), dict(env, g=set(env['g']))
+        th, el = [], []
+        for x in inner.body:
+            th += self.stmt(x, env_t, kind, cls, glob)
+        for x in s.orelse:
+            el += self.stmt(x, env_e, kind, cls, glob)
+        return [('gated', pre, float(off), float(eff), th, el)]
 
     def is_t(self, node, env):
         return isinstance(node, ast.Name) and node.id == env['t']
@@ -186,6 +235,13 @@ class Translator:
                 if len(call.args) == 2 and not call.keywords and self.is_t(call.args[0], env) and self.is_x(call.args[1], env):
                     return self.function(m, kind)
                 raise Untranslatable(where)
+            # self.locus(self.L).enterHandler(g, n) / leaveHandler(g, n) on a plain locus
+            if (isinstance(fn, ast.Attribute) and fn.attr in ('enterHandler', 'leaveHandler') and isinstance(fn.value, ast.Call)
+                    and _is_self_attr(fn.value.func, env['self']) and fn.value.func.attr == 'locus' and len(fn.value.args) == 1
+                    and not fn.value.keywords and len(call.args) == 2 and not call.keywords
+                    and self.is_graph(call.args[0], env) and self.is_n(call.args[1], env)):
+                lname = self.const(fn.value.args[0], env['self'], glob)
+                return [('enter' if fn.attr == 'enterHandler' else 'leave', lname)]
             if _is_super_call(fn):
                 if len(call.args) == 2 and not call.keywords and self.is_t(call.args[0], env) and self.is_x(call.args[1], env):
                     return self.function(fn.attr, kind, after=cls)
@@ -199,7 +255,7 @@ class Translator:
         raise Untranslatable(where)
 
 
-def render(kind, body, code, kpost):
+def render(kind, body, code, kpost, lidx=None, vplain=False):
     def st(s):
         if s[0] == 'unpack':
             return 'SUnpack'
@@ -215,11 +271,21 @@ def render(kind, body, code, kpost):
             return 'SSetAttr'
         if s[0] == 'post':
             return '(SPost %s %s)' % (L.q(s[1]), L.nat(kpost))
+        if s[0] in ('enter', 'leave'):
+            if lidx is None or s[1] not in lidx:
+                raise Untranslatable('enter/leave handler of an unknown locus %r' % (s[1],))
+            return '(%s %s)' % ('SEnter' if s[0] == 'enter' else 'SLeave', L.nat(lidx[s[1]]))
         raise Untranslatable(repr(s))
-    return '(%s %s)' % ('PEdge' if kind == 'edge' else 'PNode', L.lst([st(s) for s in body]))
+    if body and body[0][0] == 'gated':
+        if len(body) != 1 or kind != 'edge':
+            raise Untranslatable('gate in an unexpected position')
+        _, pre, off, eff, th, el = body[0]
+        return '(VGated %s %s %s %s %s)' % (L.lst([st(x) for x in pre]), L.q(off), L.q(eff), L.lst([st(x) for x in th]), L.lst([st(x) for x in el]))
+    p = '(%s %s)' % ('PEdge' if kind == 'edge' else 'PNode', L.lst([st(s) for s in body]))
+    return '(VPlain %s)' % p if vplain else p
 
 
-PV = {'pSeed': 0.5, 'pInfect': 0.5, 'pRemove': 0.25, 'pAux': 0.125, 'tInf': 1.5, 'eff': 0.5, 'off': 0.0}
+PV = {'pSeed': 0.5, 'pInfect': 0.5, 'pRemove': 0.25, 'pAux': 0.125, 'tInf': 1.5, 'eff': 0.75, 'off': 0.25}
 HEADER = ['From Coq Require Import List ZArith QArith Bool.', 'From EpyV Require Import Model.Kernel Model.Loci Model.Compart Model.EvProg Proofs.EvProg.',
           'Import ListNotations.', 'Open Scope Q_scope.']
 
@@ -233,7 +299,7 @@ def live(model):
     return p, dyn
 
 
-def programs(model):
+def programs(model, gated=False):
     """[(function name, kind, statements, posted target)] for every registered event of the model, plus posted targets"""
     import epydemic as ep
     from epydemic.opinion_model import MultiCompartmentedEdgeLocus
@@ -249,11 +315,13 @@ def programs(model):
         out = []
         for fn, kind in regs:
             tr = Translator(p)
-            out.append((fn, kind, tr.function(fn, kind)))
+            out.append((fn, kind, tr.function(fn, kind, gated=gated)))
         targets = sorted({s[2] for _, _, body in out for s in body if s[0] == 'post'})
         posted = []
         for fn in targets:
             posted.append((fn, 'node', Translator(p).function(fn, 'node')))
+        if gated:
+            return out, posted, {n.split('@')[0]: i for i, n in enumerate(dyn.loci().keys())}
         return out, posted
     finally:
         dyn.tearDown()
@@ -300,3 +368,41 @@ def obligations(workdir, aspect):
         except Exception as e:          # the model cannot even be built: another property's business, but the tie is not there
             res.append((name, False, repr(e)))
     return res
+
+
+HEADER_V = ['From Coq Require Import List ZArith QArith Bool.',
+            'From EpyV Require Import Model.Kernel Model.Loci Model.Compart Model.CompartV Model.EvProg Model.EvProgV Proofs.EvProgV.',
+            'Import ListNotations.', 'Open Scope Q_scope.']
+
+
+def obligations_sivr(workdir):
+    """SIvR: the vaccine gate and the two plain loci, against the summaries Tie/CompartV.v's cases are built from"""
+    import epydemic as ep
+    name = 'tieA:event-functions-from-source:SIvR'
+    try:
+        sp = compart.spec('SIvR')
+        code = {c: i + 1 for i, c in enumerate(sorted(set(sp['comps'])))}
+        evs, posted, lidx = programs('SIvR', gated=True)
+        if posted:
+            raise Untranslatable('SIvR posts events (%r) but its Coq model has none' % [x[0] for x in posted])
+        iN, iV = lidx[ep.SIvR.INFECTED_N], lidx[ep.SIvR.INFECTED_V]
+        lines = list(HEADER_V)
+        for j, (fn, kind, body) in enumerate(evs):
+            if fn == 'infect':
+                exp = '(VInfect %s %s %s %s %s)' % (L.z(code[ep.SIR.INFECTED]), L.q(PV['eff']), L.q(PV['off']), L.nat(iN), L.nat(iV))
+            elif fn == 'remove':
+                exp = '(VRemove %s %s %s)' % (L.z(code[ep.SIR.REMOVED]), L.nat(iN), L.nat(iV))
+            else:
+                raise Untranslatable('unexpected event function %s' % fn)
+            lines.append('Definition src_%d : vprog := %s.' % (j, render(kind, body, code, len(evs), lidx, vplain=True)))
+            lines.append('Lemma sum_%d : vsummarise src_%d = Some %s. Proof. vm_compute. reflexivity. Qed.' % (j, j, exp))
+            lines.append('Definition is_vhandler_%d := vsummarise_sound _ _ sum_%d.' % (j, j))
+        src = os.path.join(workdir, 'EvSrc_SIvR.v')
+        with open(src, 'w') as f:
+            f.write('\n'.join(lines) + '\n')
+        rc, out, dt = core.coqc_file(src, timeout=120)
+        return [(name, rc == 0, out[-1200:] if rc else [fn for fn, _, _ in evs])]
+    except Untranslatable as e:
+        return [(name, False, 'outside the translated fragment: %s' % e)]
+    except Exception as e:
+        return [(name, False, repr(e))]
